@@ -181,8 +181,6 @@ def run(ck: common.Check):
     import shutil
     shutil.rmtree(common.SCRATCH / "c18", ignore_errors=True)
     # sessions
-    import progen
-    import random
     hand = [dict(h, kind="hand", hint_id=h["id"]) for h in S.HAND if not h["witness"]]
     wit = [dict(h, kind="hand", hint_id=h["hint"]) for h in S.HAND if h["witness"]]
     n_gen = ck.n(8, 36)
@@ -190,10 +188,9 @@ def run(ck: common.Check):
     feats = [None, {"divmod": 0.9, "calls": 0.7}, {"config": 0.8, "windows": 0.7, "extern": 0.5},
              {"calls": 0.9, "windows": 0.8, "config": 0.6}, {"shadow": 0.5, "divmod": 0.8, "nonzero_lo": 0.6}]
     for i in range(n_gen):
-        g = progen.ProgGen(random.Random(ck.rng.getrandbits(40)), "g%d" % i, feats[i % len(feats)])
-        src = g.module().replace(progen.HEADER, "")
-        gen.append({"id": "gen%d" % i, "kind": "gen", "src": src, "seed": ck.rng.getrandbits(30), "nsteps": 2 + i % 5,
-                    "hint_id": None})
+        # the program text is generated by the recorder child (fixed PYTHONHASHSEED): progen iterates sets of str
+        gen.append({"id": "gen%d" % i, "kind": "gen", "seed": ck.rng.getrandbits(30), "nsteps": 2 + i % 5, "hint_id": None,
+                    "gen": {"seed": ck.rng.getrandbits(40), "uid": "g%d" % i, "features": feats[i % len(feats)]}})
     base_var = {"hs": "0", "pre_name": "none", "pre": {}, "gc": "on", "layout": 0, "pre_k": 0}
     f_rec = pool.submit(run_child, "recorder", {"variant": base_var, "sessions": gen, "record": True}, "0", ck.n(300, 1200))
 
@@ -282,6 +279,7 @@ def run(ck: common.Check):
             if "err:session" in o:  # rejected by the front end (generator slip): not a session
                 continue
             g["steps"] = o.get("steps", [])
+            g["src"] = o["src"]
             gen_ok.append(g)
         ck.log("recorder: %d/%d generated sessions accepted, schedule lengths %s, %.0fs"
                % (len(gen_ok), len(gen), collections.Counter(len(g["steps"]) for g in gen_ok).most_common(), rec["wall"]))
